@@ -131,15 +131,68 @@ fn err_name(e: &ConfigError) -> Option<String> {
     }
 }
 
+thread_local! {
+    /// which mix of singular / plural builder methods the next `builder()` call uses
+    static API_VARIANT: std::cell::Cell<usize> = const { std::cell::Cell::new(0) };
+}
+
+/// builder histories: 0 = one call per item; 1 = first item alone, the rest through the plural adder;
+/// 2 = plural adders only (two calls when there are several items)
 fn builder(i: &Input, counters: &[Arc<AtomicUsize>]) -> (log4rs::config::runtime::ConfigBuilder, Root) {
+    let variant = API_VARIANT.with(|v| v.get());
+    let mk_app = |k: usize| Appender::builder().build(i.appenders[k].clone(), Box::new(CountAppender(counters[k].clone())));
+    let mk_log = |k: usize| {
+        let (n, refs) = &i.loggers[k];
+        let lb = Logger::builder();
+        let lb = if variant == 0 { refs.iter().fold(lb, |b, r| b.appender(r.clone())) } else { lb.appenders(refs.iter().cloned()) };
+        lb.build(n.clone(), LevelFilter::Trace)
+    };
     let mut b = Config::builder();
-    for (k, a) in i.appenders.iter().enumerate() {
-        b = b.appender(Appender::builder().build(a.clone(), Box::new(CountAppender(counters[k].clone()))));
+    let (na, nl) = (i.appenders.len(), i.loggers.len());
+    match variant {
+        0 => {
+            for k in 0..na {
+                b = b.appender(mk_app(k));
+            }
+            for k in 0..nl {
+                b = b.logger(mk_log(k));
+            }
+        }
+        1 => {
+            if na > 0 {
+                b = b.appender(mk_app(0));
+                b = b.appenders((1..na).map(mk_app).collect::<Vec<_>>());
+            }
+            if nl > 0 {
+                b = b.logger(mk_log(0));
+                b = b.loggers((1..nl).map(mk_log).collect::<Vec<_>>());
+            }
+        }
+        _ => {
+            let half = na / 2;
+            b = b.appenders((0..half).map(mk_app).collect::<Vec<_>>());
+            b = b.appenders((half..na).map(mk_app).collect::<Vec<_>>());
+            let half = nl / 2;
+            b = b.loggers((0..half).map(mk_log).collect::<Vec<_>>());
+            b = b.loggers((half..nl).map(mk_log).collect::<Vec<_>>());
+        }
     }
-    for (n, refs) in &i.loggers {
-        b = b.logger(Logger::builder().appenders(refs.iter().cloned()).build(n.clone(), LevelFilter::Trace));
+    let rb = Root::builder();
+    let rb = if variant == 0 { i.root_refs.iter().fold(rb, |b, r| b.appender(r.clone())) } else { rb.appenders(i.root_refs.iter().cloned()) };
+    (b, rb.build(LevelFilter::Trace))
+}
+
+/// checks one input under every builder history
+pub fn check_all_variants(i: &Input) -> Option<(String, String)> {
+    for v in 0..3 {
+        API_VARIANT.with(|x| x.set(v));
+        if let Some((s, d)) = check(i) {
+            API_VARIANT.with(|x| x.set(0));
+            return Some((s, format!("[builder history {}] {}", v, d)));
+        }
     }
-    (b, Root::builder().appenders(i.root_refs.iter().cloned()).build(LevelFilter::Trace))
+    API_VARIANT.with(|x| x.set(0));
+    None
 }
 
 fn shape(c: &Config) -> (Vec<String>, Vec<String>, Vec<(String, Vec<String>)>) {
@@ -324,6 +377,7 @@ pub fn run(ctx: &Ctx) -> Report {
     rep.set(
         "rule",
         "E-ENUM: (a) every logger name over {a,b,:} up to the length bound, alone and after a valid logger, through build/build_lossy; \
+         every input through three builder histories (one call per item / first item alone then the plural adder / plural adders only; 3-logger inputs rotate through them); \
          (b) every builder input: appender sequences over {x,y}, logger sequences over {a,a::b,'a:','',::a} with repetition, reference lists \
          over {x,y,z(dangling)} on root and loggers; compared with the reference validity/lossy model, every returned Config installed and \
          logged through. Non-trivial = input with at least one offending item",
@@ -383,7 +437,7 @@ pub fn run(ctx: &Ctx) -> Report {
                 app_seqs.len(), root_refl.len(), logger_seqs.len(), lseq_len, refl.len(), total_b),
         ]),
     );
-    let bad_a: Vec<(usize, (String, String))> = inputs_a.par_iter().enumerate().filter_map(|(k, i)| check(i).map(|m| (k, m))).collect();
+    let bad_a: Vec<(usize, (String, String))> = inputs_a.par_iter().enumerate().filter_map(|(k, i)| check_all_variants(i).map(|m| (k, m))).collect();
     rep.add("evaluations", inputs_a.len() as u64);
     rep.add("distinct_nontrivial", inputs_a.iter().filter(|i| !reference(i).offending.is_empty()).count() as u64);
     for (k, (s, d)) in bad_a {
@@ -407,7 +461,15 @@ pub fn run(ctx: &Ctx) -> Report {
                 if !reference(&inp).offending.is_empty() {
                     nt += 1;
                 }
-                if let Some(m) = check(&inp) {
+                let verdict = if inp.loggers.len() <= 2 {
+                    check_all_variants(&inp)
+                } else {
+                    API_VARIANT.with(|x| x.set((n as usize) % 3));
+                    let r = check(&inp).map(|(s, d)| (s, format!("[builder history {}] {}", n % 3, d)));
+                    API_VARIANT.with(|x| x.set(0));
+                    r
+                };
+                if let Some(m) = verdict {
                     if bad.len() < 50 {
                         bad.push((inp, m));
                     }
@@ -438,7 +500,7 @@ pub fn run(ctx: &Ctx) -> Report {
 
 pub fn replay(case: &Value) -> Result<(), String> {
     let i = input_from_json(case).ok_or("bad case")?;
-    match check(&i) {
+    match check_all_variants(&i) {
         None => Ok(()),
         Some((s, d)) => Err(format!("{}: {}", s, d)),
     }
